@@ -54,19 +54,22 @@ Print Assumptions C13_rollup_agrees.
 
 (* memory_maps(grouped=False): one row per mapping, in order, with its own address range,
    permissions, path ('[anon]' if none, the kernel's " (deleted)" marker removed) and its
-   own ten figures -- any number of mappings, any path bytes without a blank at either end *)
-Theorem C13_maps_ungrouped : forall ex ms, forallb (wf_mapping ex) ms = true ->
+   own ten figures -- any number of mappings, any path bytes (blanks inside or at the end,
+   colons, " (deleted)", non-UTF-8) *)
+Theorem C13_maps_ungrouped : forall ex ms, forallb (wf_kernel ex) ms = true ->
   memory_maps Alive ex (FContent (k_smaps ms)) = Val (map spec_row ms).
 Proof. exact maps_ungrouped. Qed.
 Print Assumptions C13_maps_ungrouped.
 
-(* the excluded class is a real failure: a mapped file whose name ends with a blank *)
-Theorem C13_maps_trailing_blank_refuted :
-  exists m, wf_kernel no_files m = true /\ edges_ok m = false /\
-    exists rows, memory_maps Alive no_files (FContent (k_smaps [m])) = Val rows /\
-                 map w_path rows = [bs "/tmp/a"] /\ map w_path [spec_row m] = [bs "/tmp/a "].
-Proof. exact maps_trailing_blank_refuted. Qed.
-Print Assumptions C13_maps_trailing_blank_refuted.
+(* the path decoding before /repo commit c15178c (str.strip() of the name) lost a blank at the
+   end of a mapped file's name; the present one returns the mapping's own path *)
+Theorem C13_legacy_strip_refuted :
+  wf_kernel no_files wit_blank = true
+  /\ clean_path_legacy no_files (shown_path wit_blank) = bs "/tmp/a"
+  /\ clean_path no_files (shown_path wit_blank) = m_path wit_blank
+  /\ m_path wit_blank = bs "/tmp/a ".
+Proof. exact legacy_strip_refuted. Qed.
+Print Assumptions C13_legacy_strip_refuted.
 
 (* memory_maps(grouped=True), for any list of rows: one row per distinct path ... *)
 Theorem C13_group_paths_nodup : forall rows, NoDup (map fst (group_rows rows)).
@@ -95,7 +98,7 @@ Proof. exact group_conservation. Qed.
 Print Assumptions C13_group_conservation.
 
 (* end to end: the grouped view of the kernel's listing *)
-Theorem C13_maps_grouped : forall ex ms, forallb (wf_mapping ex) ms = true ->
+Theorem C13_maps_grouped : forall ex ms, forallb (wf_kernel ex) ms = true ->
   omap group_rows (memory_maps Alive ex (FContent (k_smaps ms))) = Val (spec_grouped (map spec_row ms)).
 Proof. exact maps_grouped. Qed.
 Print Assumptions C13_maps_grouped.
